@@ -86,6 +86,7 @@ class VTransport(object):
     def write(self, data):
         if self.disconnecting or not self.connected:
             self.conn.discarded += len(data)
+            self.conn.discarded_frames.append(bytes(data)[4:])
             return
         self.conn.client_wrote(bytes(data))
 
@@ -150,6 +151,7 @@ class Connection(object):
         self.frames = []  # complete request frames received by the broker (payload bytes), in order
         self.b2c = bytearray()  # bytes queued by the broker, not yet delivered to the client
         self.discarded = 0
+        self.discarded_frames = []  # writes made after loseConnection (a real transport drops them too)
         self.server = None  # server-side state attached by the simulated broker
         self.opened_at = net.clock.seconds()
 
